@@ -501,11 +501,14 @@ func (p *Peer) canRemove() bool {
 func (p *Peer) addConnection(c *Connection, direction connectionDirection) error {
 	conns := p.connectionsFor(direction)
 
+	// The state is checked with the peer lock held: a connection that leaves
+	// the active state is removed from the peer under the same lock, so it is
+	// either rejected here, or found by that removal.
+	p.Lock()
 	if c.readState() != connectionActive {
+		p.Unlock()
 		return ErrInvalidConnectionState
 	}
-
-	p.Lock()
 	*conns = append(*conns, c)
 	p.Unlock()
 
